@@ -88,6 +88,18 @@ class TLCRun:
             proc = subprocess.Popen(cmd, cwd=work, env=env, stdout=subprocess.PIPE,
                                     stderr=subprocess.STDOUT, text=True, bufsize=1 << 20)
             deadline = time.time() + self.timeout
+            # a silent TLC never reaches the deadline test below: a timer kills it
+            import threading
+
+            def _kill():
+                self.error = "TLC timeout"
+                try:
+                    proc.kill()
+                except Exception:
+                    pass
+            timer = threading.Timer(self.timeout, _kill)
+            timer.daemon = True
+            timer.start()
             for line in proc.stdout:
                 if line.startswith('"{') or line.startswith('"['):
                     yield line
@@ -105,6 +117,7 @@ class TLCRun:
                     proc.kill()
                     break
             rc = proc.wait()
+            timer.cancel()
             text = "\n".join(self.output_tail)
             if self.error is None:
                 if "Model checking completed. No error has been found." in text or (
